@@ -106,6 +106,47 @@ def check_bch(ctx: Ctx, c: Dict[str, Any]) -> None:
             ctx.violation(dict(op="lie_bracket", what="unit_covariance", **sig0), f"lie_bracket is not covariant under a change of units: off by {max_err(b2, b1 * cf):.3g}", c)
     except Exception as ex:
         ctx.violation(dict(op="compose_svfs", exc=type(ex).__name__, what="unit_covariance", **sig0), f"compose_svfs with scaled units raised {ex}", c)
+    # every derivative scheme: the bracket transforms like a vector under a change of units, and on affine fields every scheme agrees with the
+    # exact bracket away from the border (all schemes differentiate affine functions exactly there; the Gaussian one up to its truncation)
+    cf = torch.tensor([2.0, 0.5, 3.0][:D], dtype=u.dtype).reshape(1, D, *([1] * D))
+    sp2 = [a * b for a, b in zip(sp if isinstance(sp, (list, tuple)) else [sp] * D, [2.0, 0.5, 3.0][:D])]
+    for mode in ("central", "forward", "backward", "prewitt", "sobel", "gaussian"):  # (bspline mode changes the lattice: not a bracket of sampled fields)
+        try:
+            b1 = U.lie_bracket(v, u, mode=mode, spacing=sp)
+            b2 = U.lie_bracket(v * cf, u * cf, mode=mode, spacing=sp2)
+            if max_err(b2, b1 * cf) > 1e-7 * max(1.0, float(b1.abs().max())):
+                ctx.violation(dict(op="lie_bracket", what="unit_covariance", mode=mode, **sig0),
+                              f"lie_bracket(mode={mode}) is not covariant under a change of units: off by {max_err(b2, b1 * cf):.3g}", c)
+            if tuple(b1.shape) == tuple(exp_b.shape):
+                m_ = 3 if mode == "gaussian" else 1
+                if min(n) > 2 * m_ + 1:
+                    sel = (slice(None), slice(None)) + interior(n, m_)
+                    tol_ = 2e-3 * max(1.0, float(exp_b.abs().max())) if mode == "gaussian" else 1e-7
+                    if max_err(b1[sel], exp_b[sel]) > tol_:
+                        ctx.violation(dict(op="lie_bracket", mode=mode, what="interior", **sig0),
+                                      f"lie_bracket(mode={mode}) of affine fields differs from Jv.u - Ju.v by {max_err(b1[sel], exp_b[sel]):.3g} in the interior", c)
+            w1 = U.compose_svfs(u, v, mode=mode, spacing=sp, bch_terms=2)
+            w2 = U.compose_svfs(u * cf, v * cf, mode=mode, spacing=sp2, bch_terms=2)
+            if max_err(w2, w1 * cf) > 1e-7 * max(1.0, float(w1.abs().max())):
+                ctx.violation(dict(op="compose_svfs", what="unit_covariance", mode=mode, **sig0),
+                              f"compose_svfs(mode={mode}) is not covariant under a change of units: off by {max_err(w2, w1 * cf):.3g}", c)
+        except Exception as ex:
+            ctx.violation(dict(op="lie_bracket", exc=type(ex).__name__, mode=mode, **sig0), f"lie_bracket(mode={mode}) raised {type(ex).__name__}: {str(ex)[:100]}", c)
+    # none of these functions may change the fields handed to it
+    u0, v0 = u.clone(), v.clone()
+    try:
+        U.compose_svfs(u, v, mode="forward_central_backward", spacing=sp, bch_terms=3)
+        U.lie_bracket(v, u, spacing=sp)
+        U.compose_flows(u, v)
+        for k_ in (0, 1):
+            U.logv(u, num_iters=2, bch_terms=1, sigma=None, exp_steps=k_)
+            U.expv(v, steps=k_, inverse=True)
+            U.expv(v, steps=k_, scale=0.5)
+    except Exception as ex:
+        ctx.violation(dict(op="inputs", exc=type(ex).__name__, **sig0), f"raised {type(ex).__name__}: {str(ex)[:100]}", c)
+    if max_err(u, u0) > 0 or max_err(v, v0) > 0:
+        ctx.violation(dict(op="inputs", what="mutated", **sig0), "compose_svfs / lie_bracket / compose_flows / logv / expv changed a field it was given", c)
+        u.copy_(u0); v.copy_(v0)
     for terms in range(6):
         exp = hom_field(n, ac, c["bch"][terms])
         margin = 0
